@@ -91,7 +91,18 @@ type obsReq struct {
 	ps      []byte
 }
 
+// keptRow: a row exactly as it was handed to the consumer, kept to be looked at again later
+type keptRow struct {
+	id   int
+	txt  string
+	blob []byte
+	m    map[string]interface{}
+}
+
 type caseOut struct {
+	tags    []int // metadata tag of Iter.Columns() after each row (consumers 0 and 2)
+	kept    []keptRow
+	keptBad string
 	rows    []int32
 	ncalls  int
 	err     int // -1 = nil
@@ -135,7 +146,53 @@ func tagOf(stmt string) int {
 	return n
 }
 
-var resultCols = []node.Column{node.Col("id", node.Int), node.Col("txt", node.Varchar)}
+// Result metadata. The PREPARE result calls the text column "txt"; the metadata sent with answer k of a script
+// calls it "t<k>": which metadata the Iter decodes a page with is thereby visible in Iter.Columns() / map keys.
+var resultCols = []node.Column{node.Col("id", node.Int), node.Col("txt", node.Varchar), node.Col("b", node.Blob)}
+
+func pageCols(k int) []node.Column {
+	return []node.Column{node.Col("id", node.Int), node.Col("t"+strconv.Itoa(k), node.Varchar), node.Col("b", node.Blob)}
+}
+
+const prepMeta = -1
+
+// metaTag reads the tag back from the columns an Iter reports (-2: no such column)
+func metaTag(cols []gocql.ColumnInfo) int {
+	if len(cols) < 2 {
+		return -2
+	}
+	return nameTag(cols[1].Name)
+}
+
+func nameTag(name string) int {
+	if name == "txt" {
+		return prepMeta
+	}
+	if k, err := strconv.Atoi(strings.TrimPrefix(name, "t")); err == nil && strings.HasPrefix(name, "t") {
+		return k
+	}
+	return -2
+}
+
+func rowBlob(id int32) []byte {
+	x := uint64(uint32(id))*0x9E3779B97F4A7C15 + 0x0123456789ABCDEF
+	b := make([]byte, 8+int(uint32(id)%5))
+	for i := range b {
+		b[i] = byte(x >> (8 * uint(i%8)))
+	}
+	return b
+}
+
+// textOf finds the text cell of a row map whatever metadata named it
+func textOf(m map[string]interface{}) (string, int) {
+	for k, v := range m {
+		if k != "id" && k != "b" {
+			s, _ := v.(string)
+			return s, nameTag(k)
+		}
+	}
+	return "", -2
+}
 
 func handle(c *node.ServerConn, req *node.Request) {
 	stmt := req.Statement()
@@ -207,9 +264,9 @@ func handle(c *node.ServerConn, req *node.Request) {
 		}
 		send(node.Unprepared(pid))
 	case rPage:
-		m := node.Rows{Columns: resultCols, Keyspace: "demo", Table: "pg", NoMetadata: p.SkipMetadata}
+		m := node.Rows{Columns: pageCols(k), Keyspace: "demo", Table: "pg", NoMetadata: p.SkipMetadata}
 		for _, rid := range r.rows {
-			m.Rows = append(m.Rows, [][]byte{node.IntV(rid), node.TextV(rowText(rid))})
+			m.Rows = append(m.Rows, [][]byte{node.IntV(rid), node.TextV(rowText(rid)), rowBlob(rid)})
 		}
 		if m.Rows == nil {
 			m.Rows = [][][]byte{}
@@ -279,7 +336,7 @@ func (p sameHostRetry) GetRetryType(error) gocql.RetryType  { return gocql.Retry
 
 // effective rewrites the script the way the executor's retry loop presents it to the paging logic: an error
 // answer that the policy retries is followed by the very same request, exactly like UNPREPARED
-// (Coq: Corr.retried does the same rewriting on the model side).
+// (used by the Go-side oracle only; the Coq model has the retry budget itself: Model.exec).
 func effective(script []reply, n int) []reply {
 	out := make([]reply, 0, len(script))
 	left := n
@@ -311,10 +368,12 @@ func runCase(s *gocql.Session, in *caseIn) (out caseOut) {
 	q := buildQuery(s, in)
 	iter := q.Iter()
 	limit := in.stop
-	check := func(id int, txt string) {
-		if txt != rowText(int32(id)) && out.badRow == "" {
-			out.badRow = fmt.Sprintf("row id %d came with text %q", id, txt)
+	check := func(id int, txt string, blob []byte, m map[string]interface{}) {
+		if (txt != rowText(int32(id)) || !bytes.Equal(blob, rowBlob(int32(id)))) && out.badRow == "" {
+			out.badRow = fmt.Sprintf("row id %d came with text %q blob %x", id, txt, blob)
 		}
+		out.kept = append(out.kept, keptRow{id, txt, blob, m})
+		out.rows = append(out.rows, int32(id))
 	}
 	var err error
 	switch in.consumer {
@@ -322,12 +381,13 @@ func runCase(s *gocql.Session, in *caseIn) (out caseOut) {
 		for limit < 0 || out.ncalls < limit {
 			var id int
 			var txt string
+			var blob []byte
 			out.ncalls++
-			if !iter.Scan(&id, &txt) {
+			if !iter.Scan(&id, &txt, &blob) {
 				break
 			}
-			check(id, txt)
-			out.rows = append(out.rows, int32(id))
+			check(id, txt, blob, nil)
+			out.tags = append(out.tags, metaTag(iter.Columns()))
 		}
 		err = iter.Close()
 		out.state = iter.PageState()
@@ -340,12 +400,12 @@ func runCase(s *gocql.Session, in *caseIn) (out caseOut) {
 			}
 			var id int
 			var txt string
-			if e := sc.Scan(&id, &txt); e != nil {
+			var blob []byte
+			if e := sc.Scan(&id, &txt, &blob); e != nil {
 				out.badRow = "Scanner.Scan: " + e.Error()
 				break
 			}
-			check(id, txt)
-			out.rows = append(out.rows, int32(id))
+			check(id, txt, blob, nil)
 		}
 		out.state = iter.PageState() // the Iter itself is not advanced by its Scanner
 		err = sc.Err()
@@ -357,9 +417,10 @@ func runCase(s *gocql.Session, in *caseIn) (out caseOut) {
 				break
 			}
 			id, _ := m["id"].(int)
-			txt, _ := m["txt"].(string)
-			check(id, txt)
-			out.rows = append(out.rows, int32(id))
+			blob, _ := m["b"].([]byte)
+			txt, _ := textOf(m)
+			check(id, txt, blob, m)
+			out.tags = append(out.tags, metaTag(iter.Columns()))
 		}
 		err = iter.Close()
 		out.state = iter.PageState()
@@ -368,9 +429,9 @@ func runCase(s *gocql.Session, in *caseIn) (out caseOut) {
 		ms, err = iter.SliceMap()
 		for _, m := range ms {
 			id, _ := m["id"].(int)
-			txt, _ := m["txt"].(string)
-			check(id, txt)
-			out.rows = append(out.rows, int32(id))
+			blob, _ := m["b"].([]byte)
+			txt, _ := textOf(m)
+			check(id, txt, blob, m)
 		}
 		out.state = iter.PageState()
 	}
@@ -378,11 +439,30 @@ func runCase(s *gocql.Session, in *caseIn) (out caseOut) {
 	return out
 }
 
+// recheckKept looks at every row handed out earlier once more: later page switches, Close() and the end of the
+// iteration must not have changed them (a row decoded into memory the driver reuses would show here)
+func recheckKept(out *caseOut) {
+	for i, k := range out.kept {
+		bad := k.txt != rowText(int32(k.id)) || !bytes.Equal(k.blob, rowBlob(int32(k.id))) || int32(k.id) != out.rows[i]
+		if k.m != nil {
+			id, _ := k.m["id"].(int)
+			blob, _ := k.m["b"].([]byte)
+			txt, _ := textOf(k.m)
+			bad = bad || id != k.id || txt != k.txt || !bytes.Equal(blob, k.blob) || len(k.m) != 3
+		}
+		if bad && out.keptBad == "" {
+			out.keptBad = fmt.Sprintf("row %d (id %d) handed out earlier now reads text %q blob %x map %v", i, k.id, k.txt, k.blob, k.m)
+		}
+	}
+	out.kept = nil
+}
+
 // ---- the property's oracle, in Go, on the script (from the property text) ------------------------
 
 type oracle struct {
 	rows    []int32  // every row of every page up to the first failed fetch / the last page, in order
 	pageOf  []int    // for each of those rows, the index (in served pages) of its page
+	rowTag  []int    // for each of those rows, the script position of the answer it came in
 	pageLen []int    // rows per served page
 	states  [][]byte // paging state each request must carry (nil = none), full iteration
 	hasSt   []bool
@@ -403,10 +483,15 @@ func expect(in *caseIn) oracle {
 		o.hasSt = append(o.hasSt, has)
 		if i >= len(in.eff) {
 			o.endErr = eNoReply
+			for k := 0; k < in.retries; k++ { // the unanswered request is retried, every retry times out too
+				o.states = append(o.states, cur)
+				o.hasSt = append(o.hasSt, has)
+			}
 			return o
 		}
 		r := in.eff[i]
 		i++
+		pos := i - 1
 		switch r.kind {
 		case rUnprep:
 			continue // the same request again
@@ -422,6 +507,7 @@ func expect(in *caseIn) oracle {
 			for _, id := range r.rows {
 				o.rows = append(o.rows, id)
 				o.pageOf = append(o.pageOf, pi)
+				o.rowTag = append(o.rowTag, pos)
 			}
 			if !r.more || in.manual {
 				return o
@@ -483,7 +569,7 @@ func requestsUpToPage(in *caseIn, page int) int {
 			return n
 		}
 	}
-	return n + 1 // the script ran out: one more request that is never answered
+	return n + 1 + in.retries // the script ran out: one more request that is never answered (nor are its retries)
 }
 
 func requestsForNextPage(in *caseIn, page int) int {
@@ -530,16 +616,16 @@ func caseTerm(in *caseIn, out *caseOut) string {
 		manual = hlib.Some(zbytes(in.mstate))
 	}
 	var script []string
-	for _, r := range in.script {
+	for k, r := range in.script {
 		switch r.kind {
 		case rPage:
-			script = append(script, fmt.Sprintf("RPage %s %s %s", int32List(r.rows), hlib.Bool(r.more), zbytes(r.state)))
+			script = append(script, fmt.Sprintf("RPage %s %s %s %d", int32List(r.rows), hlib.Bool(r.more), zbytes(r.state), k))
 		case rErr:
-			script = append(script, fmt.Sprintf("RErr Z %s", hlib.Z(int64(r.code))))
+			script = append(script, fmt.Sprintf("RErr Z Z %s", hlib.Z(int64(r.code))))
 		case rVoid:
-			script = append(script, "RVoid Z")
+			script = append(script, "RVoid Z Z")
 		case rUnprep:
-			script = append(script, "RUnprep Z")
+			script = append(script, "RUnprep Z Z")
 		}
 	}
 	var reqs []string
@@ -559,8 +645,16 @@ func caseTerm(in *caseIn, out *caseOut) string {
 	if out.err != -1 {
 		errS = hlib.Some(hlib.Z(int64(out.err)))
 	}
-	return fmt.Sprintf("CIter %d %s %s (%s, %s) %s %s %s %s %s %s %s", in.consumer, cfg, manual, hlib.Z(in.pfNum), hlib.Z(in.pfDen),
-		hlib.Nat(out.ncalls), hlib.Nat(in.retries), hlib.List(script), int32List(out.rows), errS, hlib.List(reqs), zbytes(out.state))
+	tags := "None"
+	if in.consumer == 0 || in.consumer == 2 {
+		ts := make([]int64, len(out.tags))
+		for i, t := range out.tags {
+			ts[i] = int64(t)
+		}
+		tags = hlib.Some(hlib.ZListI(ts))
+	}
+	return fmt.Sprintf("CIter %d %s %s (%s, %s) %s %s %s %s %s %s %s %s", in.consumer, cfg, manual, hlib.Z(in.pfNum), hlib.Z(in.pfDen),
+		hlib.Nat(out.ncalls), hlib.Nat(in.retries), hlib.List(script), int32List(out.rows), tags, errS, hlib.List(reqs), zbytes(out.state))
 }
 
 // ---- generators ----------------------------------------------------------------------------------
@@ -595,7 +689,11 @@ func (g *gen) add(in *caseIn) *caseIn {
 	if !in.prepared {
 		in.bind = false
 	}
+	if in.sess == 2 && !in.ownSess { // protocol v2 has no default-timestamp flag (frame.go writeQueryParams: proto > 2)
+		in.tsflag, in.ts = false, 0
+	}
 	if in.ownSess || in.kind == "random-noreply" || in.kind == "empty-script" {
+		// (the dedicated stream retry-noreply does retry an unanswered request)
 		in.retries = 0 // a retried timeout / closed connection is the executor's business (C13), not paging's
 	}
 	in.eff = effective(in.script, in.retries)
@@ -931,6 +1029,13 @@ func (g *gen) generate(scale int, search bool) {
 		}
 		g.add(in)
 	}
+	// (8) a request that is never answered, with a retry policy: every retry times out as well
+	for i := 0; i < 3; i++ {
+		in := &caseIn{kind: "retry-noreply", consumer: i, prepared: i != 1, bind: i == 2, psize: 5, cons: gocql.One, pfNum: 1, pfDen: 4, stop: -1, retries: 1, sess: i % g.nsess}
+		in.script = g.pages([]int{2, 1}[:i%3%2+1], lastPage(0))
+		in.script = in.script[:len(in.script)-1]
+		g.add(in)
+	}
 	// (6) the connection is closed instead of an answer to the request for page j
 	n = 10 + 2*scale
 	for i := 0; i < n; i++ {
@@ -1008,7 +1113,7 @@ func main() {
 		return (r.Query != nil || r.Execute != nil) && strings.Contains(r.Statement(), "c15_")
 	}, Do: handle})
 
-	protos := []int{4, 3}
+	protos := []int{4, 3, 2}
 	var sessions []*gocql.Session
 	for _, p := range protos {
 		s, err := newSession(net, p, logw)
@@ -1070,6 +1175,7 @@ func main() {
 			out.reqs = append([]obsReq(nil), cs.reqs...)
 			cs.frozen = true
 			cs.mu.Unlock()
+			recheckKept(&out) // after the iteration ended, further pages were fetched and the prefetch landed
 			// a timeout that the script did not ask for (machine overloaded): run the case again
 			if out.err == eNoReply && or.endErr != eNoReply {
 				continue
@@ -1121,6 +1227,26 @@ func main() {
 		}
 		if out.badRow != "" {
 			viol("row-content", "", out.badRow)
+		}
+		if out.keptBad != "" {
+			viol("retained-row-changed", "", out.keptBad)
+		}
+		// M6: each page is decoded with the metadata the protocol says: the PREPARE result's when the request
+		// said skip_metadata, else the one that came with the page
+		if in.consumer == 0 || in.consumer == 2 {
+			for i, tg := range out.tags {
+				if i >= len(or.rowTag) {
+					break
+				}
+				want := or.rowTag[i]
+				if in.prepared && !in.noskip {
+					want = prepMeta
+				}
+				if tg != want {
+					viol("metadata", "", fmt.Sprintf("row %d was decoded with metadata %d, expected %d (-1 = PREPARE result, k = sent with answer k)", i, tg, want))
+					break
+				}
+			}
 		}
 		full := in.consumer == 3 || out.ncalls > len(out.rows)
 		// M1: every row of every page exactly once, in order (a prefix when the consumer stopped early)
